@@ -4,6 +4,7 @@ from collections.abc import Iterable
 from formulaic.utils.code import format_expr, sanitize_variable_names
 
 from ..types.token import Token
+from ..utils import exc_for_token
 
 
 def sanitize_tokens(tokens: Iterable[Token]) -> Iterable[Token]:
@@ -25,7 +26,13 @@ def sanitize_tokens(tokens: Iterable[Token]) -> Iterable[Token]:
             # (strangely named) column like any other quoted name.
             token.kind = Token.Kind.OPERATOR
         if token.kind is Token.Kind.PYTHON:
-            token.token = sanitize_python_code(token.token)
+            try:
+                token.token = sanitize_python_code(token.token)
+            except RecursionError as e:
+                raise exc_for_token(
+                    token,
+                    "Python expression is too deeply nested to be processed.",
+                ) from e
         yield token
 
 
